@@ -218,8 +218,7 @@ def gen_op(rng, P):
     r = rng.random()
     if r < 0.22 or not keys:
         lo, up, reg = rng_range()
-        op = {"op": "add_by_tick", "lower": raw(lo), "upper": raw(up), "base": bb * Decimal(rng.choice(("0.1", "0.3", "0.6"))),
-              "quote": qb * Decimal(rng.choice(("0.1", "0.3", "0.6"))), "sqrt": None, "tick": None, "trim": True}
+        op = {"op": "add_by_tick", "lower": raw(lo), "upper": raw(up), "base": U.offer(rng, bb), "quote": U.offer(rng, qb), "sqrt": None, "tick": None, "trim": True}
         op.update(exec_price())
         return op, reg + ("" if op["tick"] is None and "sqrt_tick" not in op else ":exec-price") + \
             (":raw" if (op["lower"] % sp or op["upper"] % sp) else "") + \
@@ -229,7 +228,7 @@ def gen_op(rng, P):
         # prices in the inner part of a spacing cell
         off = lambda: rng.randint(-(sp // 4), sp // 4)   # noqa: E731
         p1, p2 = m.tick_to_price(lo + off()), m.tick_to_price(up + off())
-        return {"op": "add", "lower_price": min(p1, p2), "upper_price": max(p1, p2), "quote": qb * Decimal("0.3"), "base": bb * Decimal("0.3")}, reg
+        return {"op": "add", "lower_price": min(p1, p2), "upper_price": max(p1, p2), "quote": U.offer(rng, qb), "base": U.offer(rng, bb)}, reg
     k = rng.choice(keys)
     reg = "below" if w.tick < k.lower_tick else ("above" if w.tick >= k.upper_tick else "inside")
     if r < 0.45:
